@@ -123,6 +123,9 @@ func (s *snapSet) scribble() {
 		c.UserList = append(c.UserList, "appended")
 		c.Name, c.Topic = "scribbled", "scribbled"
 		girc.VerifScribbleModes(&c.Modes)
+		// … and through the snapshot's own public API (a mode list that is EMPTY but has spare capacity shares nothing visible)
+		c.Modes.Apply(c.Modes.Parse("+ps-nt+k", []string{"snapkey"}))
+		c.Modes.Apply(c.Modes.Parse("+l", []string{"77"}))
 	}
 }
 
@@ -202,7 +205,18 @@ func runC13(c *Ctx) {
 		for k := c.Rng.Intn(8); k > 0; k-- {
 			steps = append(steps, "R"+ev())
 		}
+		if c.Rng.Chance(35) {
+			// a mode list that has been non-empty and is empty again when the snapshots are taken
+			ch := chans[0]
+			steps = append(steps, "R:bob!u@h MODE "+ch+" +m", "R:bob!u@h MODE "+ch+" -m")
+			if c.Rng.Bool() {
+				steps = append(steps, "R:bob!u@h MODE "+ch+" +mk key", "R:bob!u@h MODE "+ch+" -mk key")
+			}
+		}
 		steps = append(steps, "Smutate", "D", "Skeep")
+		if c.Rng.Chance(50) {
+			steps = append(steps, "R:bob!u@h MODE "+chans[0]+" +s", "Scompare", "R:bob!u@h MODE "+chans[0]+" +l 9", "Scompare")
+		}
 		for k := 2 + c.Rng.Intn(10); k > 0; k-- {
 			steps = append(steps, "R"+ev())
 			if c.Rng.Chance(20) {
